@@ -3,6 +3,8 @@
 package node
 
 import (
+	"sync/atomic"
+	"ergo.services/ergo/app/system"
 	"ergo.services/ergo/gen"
 	"ergo.services/ergo/lib"
 )
@@ -152,6 +154,110 @@ func VerifC01Gate() {
 			t := lib.VerifSharedLoad(&b.terms)
 			u := lib.VerifSharedLoad(&unreg)
 			lib.VerifAssert(t == u, "the terminate callback runs exactly when the process is unregistered")
+		}
+	})
+}
+
+// VerifC04Race (concurrency mode): a link or monitor request by pid (real process.LinkPID /
+// MonitorPID -> node.RouteLinkPID / RouteMonitorPID -> default target manager) races with the
+// target's termination (real node.unregisterProcess: table removal, RouteTerminatePID, target
+// manager clean-up). For every interleaving of their shared accesses: a request that reported
+// success is notified exactly once when the target has gone; a request that reported an error is
+// not notified.
+func VerifC04Race() {
+	lib.VerifClockAdvance(0)
+	n := vfNode()
+	target, _ := vfProc(n, 2000, "", gen.ProcessStateSleep, 0)
+	consumer, _ := vfProc(n, 2001, "", gen.ProcessStateRunning, 0)
+	target.application = system.Name // keeps the node's shutdown wait-group out of the picture
+	lib.VerifGuarded(n.targetManager) // relation tables behind the manager's RWMutex
+	lib.VerifGuarded(&n.processes)    // process table (sync.Map)
+	monitor := lib.VerifParam("monitor", 0) == 1
+	notes := 0 // notifications sent to the consumer (saturates at 2: a closed domain for the unfolding)
+	bump := func() {
+		if v := lib.VerifSharedLoad(&notes); v < 2 {
+			lib.VerifSharedStore(&notes, v+1)
+		}
+	}
+	lib.VerifOverride("(*ergo.services/ergo/node.node).sendExitMessage", func(nn *node, from gen.PID, to gen.PID, message any) error {
+		if to == consumer.pid {
+			bump()
+		}
+		return nil
+	})
+	lib.VerifOverride("(*ergo.services/ergo/node.node).RouteSendPID", func(nn *node, from gen.PID, to gen.PID, options gen.MessageOptions, message any) error {
+		if _, down := message.(gen.MessageDownPID); down && to == consumer.pid {
+			bump()
+		}
+		return nil
+	})
+	res := 0  // 1: request succeeded, 2: request failed
+	gone := 0 // 1: the target's termination has completed
+	lib.VerifGo("requester", func() {
+		var err error
+		if monitor {
+			err = consumer.MonitorPID(target.pid)
+		} else {
+			err = consumer.LinkPID(target.pid)
+		}
+		if err == nil {
+			lib.VerifSharedStore(&res, 1)
+		} else {
+			lib.VerifSharedStore(&res, 2)
+		}
+	})
+	lib.VerifGo("terminator", func() {
+		target.state = int32(gen.ProcessStateTerminated)
+		n.unregisterProcess(target, errVfReason)
+		lib.VerifSharedStore(&gone, 1)
+	})
+	lib.VerifAtQuiescence(func() {
+		r := lib.VerifSharedLoad(&res)
+		g := lib.VerifSharedLoad(&gone)
+		k := lib.VerifSharedLoad(&notes)
+		lib.VerifAssert(k <= 1, "at most one notification per relation")
+		if r == 2 {
+			lib.VerifAssert(k == 0, "a request that failed is not notified")
+		}
+		if r == 1 && g == 1 {
+			lib.VerifAssert(k == 1, "a request that succeeded is notified once the target has gone")
+		}
+	})
+}
+
+// VerifC06Race (concurrency mode): RegisterName for a process races with that process's termination
+// (real node.RegisterName vs the runner's state change + real node.unregisterProcess, with the
+// process and name tables shared). For every interleaving: once the process is gone, the name does not
+// resolve to it - either the registration failed, or the termination released the name.
+func VerifC06Race() {
+	lib.VerifClockAdvance(0)
+	n := vfNode()
+	target, _ := vfProc(n, 2000, "", gen.ProcessStateSleep, 0)
+	target.application = system.Name
+	lib.VerifGuarded(n.targetManager)
+	lib.VerifGuarded(&n.processes)
+	lib.VerifGuarded(&n.names)
+	lib.VerifShared(&target.name)
+	res := 0
+	gone := 0
+	lib.VerifGo("registrar", func() {
+		if err := n.RegisterName("x", target.pid); err == nil {
+			lib.VerifSharedStore(&res, 1)
+		} else {
+			lib.VerifSharedStore(&res, 2)
+		}
+	})
+	lib.VerifGo("terminator", func() {
+		atomic.StoreInt32(&target.state, int32(gen.ProcessStateTerminated))
+		n.unregisterProcess(target, errVfReason)
+		lib.VerifSharedStore(&gone, 1)
+	})
+	lib.VerifAtQuiescence(func() {
+		r := lib.VerifSharedLoad(&res)
+		g := lib.VerifSharedLoad(&gone)
+		if g == 1 && r != 0 {
+			_, bound := n.names.Load(gen.Atom("x"))
+			lib.VerifAssert(!bound, "once a process has terminated its name resolves to nothing")
 		}
 	})
 }
